@@ -174,7 +174,7 @@ def run(ctx):
                "extracted C15Spec.nalu_sps/nalu_pps and C15HevcSpec.hnalu_sps/hnalu_pps; kept iff sps_valid/pps_valid/hsps_valid/hpps_valid",
     }
     # correspondence
-    n = ctx.n(2000, 80000)
+    n = ctx.n(2000, 60000)
     rc, cases, e = sh2([exe, "corr", "-seed", str(ctx.seed), "-n", str(n), "-pool", pool_path], timeout=3000)
     if rc != 0:
         raise common.CheckError("harness corr failed: " + e[-1000:])
@@ -201,14 +201,14 @@ def run(ctx):
     ctx.notes["correspondence"] = {
         "cases": len(lines), "mismatches": len(mism),
         "init_trees_satisfying_the_hypotheses_of_C19_roundtrip": hyp, "init_trees_outside_them": nohyp, "distinct_cases": distinct, "histories_by_outcome": outcomes, "kinds": kinds,
-        "distribution": "exhaustive: every media type (7 supported, 6 handler-style, 4 unsupported) x 15 language tags (length 2,3,5,6,8,10 "
-                        "incl. en-US, zh-Hant, upper case) one track; every ordered pair of media types; every AAC object type x "
+        "distribution": "exhaustive: every media type (7 supported, 6 handler-style, 4 unsupported) x 20 language tags (length 2,3,5,6,8,10,27,35,36,39,300 "
+                        "incl. en-US, zh-Hant, upper case, tags with variants / extensions / private use) one track; every ordered pair of media types; every AAC object type x "
                         "standard frequency; every acmod x lfeon x fscod. Random: %d in-scope histories (0-5 tracks, 0-2 descriptors "
                         "per track, parameter sets from the repository's tests) + %d out-of-scope histories (bad media types, "
                         "out-of-range track index, truncated/foreign SPS, empty SPS list, invalid object types, fscod 3, no EC-3 "
                         "substream, descriptors not fitting the track). M: MoovBox.AddChild(trak) on every moov child pattern over "
                         "{mvhd, mvex, trak} up to length 6 (1093 patterns; covers the insertion branch that in-scope histories never reach). "
-                        "L: elng encode/decode for fixed tags of length 0..26 (incl. NUL bytes) + %d random tags. P: stpp sample entry "
+                        "L: elng encode/decode for fixed tags of length 0..26, 27, 35, 36, 39, 300 (incl. NUL bytes) + %d random tags (one in 8 of length up to 300). P: stpp sample entry "
                         "encode/decode for 216 fixed + %d random NUL-free string triples. Generated parameter sets: every one of the %d AVC and %d HEVC "
                         "sets x {avc1+PS, avc3+PS, avc3 without PS} / {hvc1, hev1+PS, hev1 without PS} (SEI on a third), and 3 of 4 AVC/HEVC "
                         "descriptor calls of the random histories. I: the bytes of InitSegment.Encode for the exhaustive, the generated-set and "
@@ -220,7 +220,7 @@ def run(ctx):
     ctx.cov["samples"] += [l[:300] for l in lines[5:7]] + [l[:400] for l in lines[-2:]]
     ctx.log("correspondence: %d cases, %d mismatches" % (len(lines), len(mism)))
     # search
-    ns = ctx.n(2000, 80000)
+    ns = ctx.n(2000, 60000)
     rc, so, e = sh2([exe, "search", "-seed", str(ctx.seed), "-n", str(ns), "-pool", pool_path], timeout=3000)
     if rc != 0:
         raise common.CheckError("harness search failed: " + e[-1000:])
